@@ -96,3 +96,32 @@ func ZZSectionRW2() { zzSectionRW(2) }
 
 // ZZSectionRW3: <=3 sections.
 func ZZSectionRW3() { zzSectionRW(3) }
+
+// ZZSectionWriteError: a piece of 1..3 data sections written to files of which
+// an arbitrary one rejects the write (disk full, quota, I/O error): Write
+// reports an error - a piece is never reported as written when one of its
+// sections is not on disk - and writes nothing after the failing section.
+//
+//vrt:cover ZZSectionWriteError failing section is not the last one
+func ZZSectionWriteError() {
+	nsec := vrt.Choice("nsec", 3) + 1
+	var p Piece
+	var files []*vrt.MemFile
+	total := 0
+	for i := 0; i < nsec; i++ {
+		l := vrt.Choice("seclen", 3) + 1
+		f := &vrt.MemFile{Data: make([]byte, l)}
+		p = append(p, FileSection{File: f, Offset: 0, Length: int64(l)})
+		files = append(files, f)
+		total += l
+	}
+	bad := vrt.Choice("failing_section", nsec)
+	files[bad].Fail = true
+	vrt.Cover(bad < nsec-1, "failing section is not the last one")
+	buf := vrt.Bytes("piece_buffer", total)
+	_, err := p.Write(buf)
+	vrt.Assert(err != nil, "Write reported success although a section could not be written")
+	for i := bad + 1; i < nsec; i++ {
+		vrt.Assert(len(files[i].Writes) == 0, "sections after the failing one were still written")
+	}
+}
